@@ -96,6 +96,10 @@ C03 += [
     _bz("hwloc_bitmap_compare_inclusion", lis=10, cost=900, defs={"Q_CINC": None}, timeout=3600, tiers=("thorough",)),
     _bz("hwloc_bitmap_compare_first", lis=3, cost=900, defs={"Q_COMPARE_FIRST": None}, timeout=3600, tiers=("thorough",)),
 ]
+for _c in range(1, 7):      # the same contract, one hypothesis per z3 run
+    _j = _bz("hwloc_bitmap_compare_first", lis=3, cost=600, defs={"Q_COMPARE_FIRST": None, "Q_CASE": _c}, timeout=2400, tiers=("thorough",))
+    _j.name = "hwloc_bitmap_compare_first__q.case%d.z3" % _c
+    C03.append(_j)
 
 C03 += [
     Job(name="hwloc_bitmap_weight__q.unwind", driver="bitmap.drv.c", entry="hq_hwloc_bitmap_weight",
